@@ -106,12 +106,36 @@ theorem ClosedOps.and {B A : State → Held → Prop} (hb : ClosedOps0 B) (ha : 
 @[simp] theorem publish_fdtSess (s : State) (now : Nat) : (publish s now).fdtSess = s.fdtSess := rfl
 @[simp] theorem publish_quiet (s : State) (now : Nat) : (publish s now).quiet = s.quiet := rfl
 
+theorem publishTry_cases (s : State) (now : Nat) : publishTry s now = publish s now ∨ publishTry s now = s := by
+  unfold publishTry; split
+  · exact Or.inl rfl
+  · exact Or.inr rfl
+
+theorem publishTry_elim {P : State → Prop} (s : State) (now : Nat) (h1 : P (publish s now)) (h2 : P s) :
+    P (publishTry s now) := by
+  rcases publishTry_cases s now with e | e
+  · rw [e]; exact h1
+  · rw [e]; exact h2
+
+@[simp] theorem publishTry_sessions (s : State) (now : Nat) : (publishTry s now).sessions = s.sessions := by
+  rcases publishTry_cases s now with e | e <;> rw [e] <;> rfl
+@[simp] theorem publishTry_fdtSess (s : State) (now : Nat) : (publishTry s now).fdtSess = s.fdtSess := by
+  rcases publishTry_cases s now with e | e <;> rw [e] <;> rfl
+@[simp] theorem publishTry_quiet (s : State) (now : Nat) : (publishTry s now).quiet = s.quiet := by
+  rcases publishTry_cases s now with e | e <;> rw [e] <;> rfl
+
 theorem fdtMaybePublish_fdtSess (s : State) (now : Nat) : (fdtMaybePublish s now).fdtSess = s.fdtSess := by
-  unfold fdtMaybePublish; split <;> rfl
+  unfold fdtMaybePublish; split
+  · exact publishTry_fdtSess s now
+  · rfl
 theorem fdtMaybePublish_sessions (s : State) (now : Nat) : (fdtMaybePublish s now).sessions = s.sessions := by
-  unfold fdtMaybePublish; split <;> rfl
+  unfold fdtMaybePublish; split
+  · exact publishTry_sessions s now
+  · rfl
 theorem fdtMaybePublish_quiet (s : State) (now : Nat) : (fdtMaybePublish s now).quiet = s.quiet := by
-  unfold fdtMaybePublish; split <;> rfl
+  unfold fdtMaybePublish; split
+  · exact publishTry_quiet s now
+  · rfl
 
 theorem fdtPop_fdtSess (s : State) : (fdtPop s).fdtSess = s.fdtSess := by
   unfold fdtPop; split <;> rfl
@@ -183,7 +207,9 @@ theorem fdtRelease_quiet (s : State) (k now : Nat) : (fdtRelease s k now).quiet 
   exact transferDoneFdt_quiet s k now
 
 theorem autoPublish_quiet (s : State) (now : Nat) : (autoPublish s now).quiet = s.quiet := by
-  unfold autoPublish; split <;> rfl
+  unfold autoPublish; split
+  · exact publishTry_quiet s now
+  · rfl
 
 theorem transferDoneFile_quiet (s : State) (t now : Nat) : (transferDoneFile s t now).quiet = s.quiet := by
   unfold transferDoneFile
@@ -194,6 +220,12 @@ theorem transferDoneFile_quiet (s : State) (t now : Nat) : (transferDoneFile s t
     · split <;> rfl
     · rfl
 
+theorem publishTry_inv {Inv : State → Held → Prop} (hc : Closed0 Inv) (s : State) (L : Held) (now : Nat)
+    (h : Inv s L) : Inv (publishTry s now) L := by
+  rcases publishTry_cases s now with e | e
+  · rw [e]; exact hc.publish s L now trivial h
+  · rw [e]; exact h
+
 theorem fdtGetNext_inv {Inv : State → Held → Prop} (hc : Closed0 Inv) (s : State) (L : Held) (now : Nat)
     (h : Inv s L) (hq : s.quiet = false) (hs : s.fdtSess = none) :
     Inv (fdtGetNext s now) L := by
@@ -202,7 +234,7 @@ theorem fdtGetNext_inv {Inv : State → Held → Prop} (hc : Closed0 Inv) (s : S
   · exact h
   · have h1 : Inv (fdtMaybePublish s now) L := by
       unfold fdtMaybePublish; split
-      · exact hc.publish s L now trivial h
+      · exact publishTry_inv hc s L now h
       · exact h
     have hs1 : (fdtMaybePublish s now).fdtSess = none := by rw [fdtMaybePublish_fdtSess, hs]
     have hq1 : (fdtMaybePublish s now).quiet = false := by rw [fdtMaybePublish_quiet, hq]
@@ -674,9 +706,12 @@ theorem step_inv (hc : Closed0 Inv) (ho : ClosedOps0 Inv) (s : State) (op : Op)
     rw [this.1]; exact ⟨ho.add s _ a trivial h, by show (addObject s a).1.quiet = false; rw [this.2, hq]⟩
   | publish now =>
     show Inv (publishOp s now) (heldOf (publishOp s now)) ∧ _
-    have : heldOf (publishOp s now) = heldOf s := rfl
+    have : heldOf (publishOp s now) = heldOf s := by
+      unfold heldOf publishOp; rw [publishTry_sessions]; rfl
     rw [this]
-    exact ⟨hc.publish _ _ now trivial (ho.emitPublish s _ now trivial h), hq⟩
+    exact ⟨publishTry_inv hc _ _ now (ho.emitPublish s _ now trivial h), by
+      show (publishTry (emit s (.opPublish now)) now).quiet = false
+      rw [publishTry_quiet]; exact hq⟩
   | remove t =>
     have : heldOf (removeObject s t).1 = heldOf s ∧ (removeObject s t).1.quiet = s.quiet := by
       unfold removeObject heldOf; split <;> exact ⟨rfl, rfl⟩
